@@ -371,9 +371,10 @@ impl MqttShared {
         }
     }
 
-    fn enable_streaming(&self, pkt: &Publish, payload: Option<&Bytes>) {
+    /// Payload bytes that have to follow the publish packet as chunks
+    fn streaming_size(pkt: &Publish, payload: Option<&Bytes>) -> Option<num::NonZeroU32> {
         let len = payload.map_or(0, Bytes::len);
-        self.streaming_remaining.set(num::NonZeroU32::new(pkt.payload_size - len as u32));
+        num::NonZeroU32::new(pkt.payload_size - len as u32)
     }
 
     pub(super) fn encode_packet(&self, pkt: codec::Packet) -> Result<(), error::EncodeError> {
@@ -387,8 +388,12 @@ impl MqttShared {
         payload: Option<Bytes>,
     ) -> Result<(), error::EncodeError> {
         self.check_streaming()?;
-        self.enable_streaming(&pkt, payload.as_ref());
-        self.io.encode(Encoded::Publish(pkt, payload), &self.codec)
+        // streaming mode is entered only if the packet is written, a failed
+        // publish must not leave the sink waiting for its payload
+        let remaining = Self::streaming_size(&pkt, payload.as_ref());
+        self.io.encode(Encoded::Publish(pkt, payload), &self.codec)?;
+        self.streaming_remaining.set(remaining);
+        Ok(())
     }
 
     pub(super) fn encode_publish_payload(
@@ -541,7 +546,7 @@ impl MqttShared {
         payload: Option<Bytes>,
     ) -> Result<pool::Receiver<Ack>, SendPacketError> {
         self.check_streaming()?;
-        self.enable_streaming(&pkt, payload.as_ref());
+        let remaining = Self::streaming_size(&pkt, payload.as_ref());
 
         let mut queues = self.queues.borrow_mut();
         if queues.inflight_ids.contains(&id) {
@@ -549,6 +554,7 @@ impl MqttShared {
         } else {
             match self.io.encode(Encoded::Publish(pkt, payload), &self.codec) {
                 Ok(()) => {
+                    self.streaming_remaining.set(remaining);
                     let (tx, rx) = self.pool.queue.channel();
                     queues.inflight.push_back((id, Some(tx), ack));
                     queues.inflight_ids.insert(id);
@@ -567,7 +573,7 @@ impl MqttShared {
         payload: Option<Bytes>,
     ) -> Result<(), SendPacketError> {
         self.check_streaming()?;
-        self.enable_streaming(&pkt, payload.as_ref());
+        let remaining = Self::streaming_size(&pkt, payload.as_ref());
 
         let mut queues = self.queues.borrow_mut();
         if queues.inflight_ids.contains(&id) {
@@ -575,6 +581,7 @@ impl MqttShared {
         } else {
             match self.io.encode(Encoded::Publish(pkt, payload), &self.codec) {
                 Ok(()) => {
+                    self.streaming_remaining.set(remaining);
                     queues.inflight.push_back((id, None, ack));
                     queues.inflight_ids.insert(id);
                     Ok(())
